@@ -218,6 +218,13 @@ func (s *fileSeedSegment) clone(dst, src *os.File, srcOffset, srcLength, dstOffs
 	srcAlignStart := (srcOffset/blocksize + 1) * blocksize
 	srcAlignEnd := (srcOffset + srcLength) / blocksize * blocksize
 	dstAlignStart := (dstOffset/blocksize + 1) * blocksize
+
+	// Without a complete block in the range there's nothing to clone. Plain copy
+	// it, the calculations below would wrap around, and a clone request with a
+	// length of 0 means "up to the end of the file" to the kernel.
+	if srcAlignEnd <= srcAlignStart {
+		return s.copy(dst, src, srcOffset, srcLength, dstOffset)
+	}
 	alignLength := srcAlignEnd - srcAlignStart
 	dstAlignEnd := dstAlignStart + alignLength
 
